@@ -71,7 +71,7 @@ def run(tier, seed):
     for alphabet, depth in plan:
         run_alphabet(rep, alphabet, depth, d)
     # design-level demonstration: without restoring the import list the property is violated in the spec
-    res = sc.gen_histories("small", 2, rollback=False, emit="none")
+    res = sc.gen_histories("small", 2, rollback=False, emit="none", invariants="Bounded")
     rep.notes["spec_without_import_rollback_violates"] = res.violated
     if res.violated != "FailAtomic":
         raise nv.ToolError("vacuity self-test failed: FailAtomic not violated in the un-repaired rule (%s)" % res.violated)
